@@ -40,13 +40,20 @@ def _function_span(src: str, qual: str) -> Tuple[int, int]:
     (nested functions: `A.b.<locals>.c` or just `A.b.c`)."""
     tree = ast.parse(src)
     parts = [p for p in qual.split('.') if p != '<locals>']
+    want_setter = False
+    if parts and parts[-1] == 'setter':
+        want_setter = True
+        parts = parts[:-1]
     node: ast.AST = tree
-    for p in parts:
+    for k, p in enumerate(parts):
         found = None
         for sub in ast.walk(node):
             if sub is node:
                 continue
             if isinstance(sub, (ast.FunctionDef, ast.ClassDef, ast.AsyncFunctionDef)) and sub.name == p:
+                if want_setter and k == len(parts) - 1:
+                    if not any(isinstance(d, ast.Attribute) and d.attr == 'setter' for d in getattr(sub, 'decorator_list', [])):
+                        continue
                 found = sub
                 break
         if found is None:
